@@ -85,7 +85,7 @@ check_bank_output = Fn(
               C("position_plus_size_fits", "ctx.bank_data.cur_position + size <= usize::MAX", ["C19"])],
     ensures=LOUD + [
         C("inside_window", "res is Ok ==> (bank_of(defs, ctx.bank_ref).size is Some ==> ctx.bank_data.cur_position + size <= bank_of(defs, ctx.bank_ref).size->0)", ["C06"]),
-        C("writable", "res is Ok && write ==> bank_of(defs, ctx.bank_ref).output_offset is Some", ["C06"]),
+        C("writable", "res is Ok && write ==> bank_of(defs, ctx.bank_ref).output_offset is Some", ["C06", "C03"]),
         C("rejects_only_violations", "res is Err ==> (bank_of(defs, ctx.bank_ref).size is Some && ctx.bank_data.cur_position + size > bank_of(defs, ctx.bank_ref).size->0) || (write && bank_of(defs, ctx.bank_ref).output_offset is None)", ["C06"]),
     ],
     )
